@@ -259,8 +259,9 @@ def _pmul(a, b):
 
 
 class PolyState(Memory):
-    def __init__(self):
+    def __init__(self, alias=None):
         Memory.__init__(self)
+        self.alias = alias                   # location -> canonical location (two access paths to one object, e.g. TLweSample::b = a + k)
         self.live, self.snap = {}, {}
         self.calls, self.ncalls = {}, 0      # value term of a call -> the atom standing for its latest result
 
@@ -275,7 +276,12 @@ class PolyState(Memory):
     def segment(self, env=None):
         self.snap = dict(self.live)
 
+    def write(self, loc, val):
+        Memory.write(self, self.alias(loc) if self.alias else loc, val)
+
     def read(self, loc):
+        if self.alias:
+            loc = self.alias(loc)
         val = Memory.read(self, loc)
         if val is None or (isinstance(val, tuple) and val and val[0] == "part" and val[2] is None):
             return None                      # something opaque (a float, a pointer) was stored there
